@@ -26,7 +26,7 @@ Flow level (children of one composite are numbers, an emitting channel is 4*node
   pre <sig> <node>                              child's all-of trigger heard this emitter before the run (stale memory)
   owner <i> <0|1>   macro <m>   mstarters <i> …   two composites: children of the macro child m of the workflow
   run2 <fuel> <steps>                           the workflow with its hand-wired macro child (two queues)
-  replace <i>   pull <i>   ddisc <i> <slot> <src>    edits between wiring and running (Model Part E)
+  heal <i> …   replace <i>   pull <i>   ddisc <i> <slot> <src>    edits between wiring and running (Model Part E)
   roundtrip                                     state round trip of the composite (connections stored as strings and re-made)
   quiet <i>                                     the wrapped function of child i is not instrumented: leave it out of `calls`
   run <fuel>                                    prints the observations of one composite run
@@ -337,6 +337,15 @@ def step (s : St) (ws : List String) : St × List String :=
             s!"queue {r.q0.length} {r.q1.length}",
             "rec " ++ joinOrDash ((ids.filter fun i => !(s.w.accIn i).isEmpty).map fun i =>
               s!"{i}:{showNats (sortNats (r.mem i))}") ])
+    | _, _ => (s, ["bad-op"])
+  | "heal" :: healed =>
+    -- the user clears `failed` on these children (before any further edit and the next run)
+    match nats healed, s.last with
+    | some healed, some p =>
+      if healed.all (· < s.n) then
+        let st := p.store
+        ({ s with last := some { p with store := { st with failed := fun i => if healed.contains i then false else st.failed i } } }, [])
+      else (s, ["bad-op"])
     | _, _ => (s, ["bad-op"])
   | ["replace", i] =>
     -- `replace_child(i, fresh node of the same class)`: the transcribed re-seating (forth to a fresh object, and — only to
